@@ -2,9 +2,9 @@ CONSTANTS
   NP = 3
   Stakes = {1, 2, 3}
   GeoSets = {{1}, {4}, {1, 4}}
-  PolGeoSets = {{1}, {1, 4}}
+  PolGeoSets = {{1, 4}}
   McMixed = {TRUE, FALSE}
-  McMoreSel = {<<1, {}>>, <<2, {1}>>}
+  McMoreSel = {<<2, {1}>>}
   Kinds = {0, 3}
   CostBase = 3
   Den = 1
